@@ -1,6 +1,6 @@
 (* C17 property theorems. Nothing but statements closed by `exact lemma` and Print Assumptions. *)
 From Coq Require Import NArith List Bool.
-From OG Require Import C17.Model C17.Proofs.
+From OG Require Import C17.Model C17.Proofs C17.Refine C17.Corr C17.Scope C17.Gen_Consts.
 Import ListNotations.
 Open Scope N_scope.
 
@@ -37,3 +37,74 @@ Proof. exact limit_size_at_least_one. Qed.
 Theorem C17_spec_limit_all : forall max l, total_size l <= max -> limit_size max l = l.
 Proof. exact limit_size_all. Qed.
 Print Assumptions C17_spec_limit_all.
+
+(* On-disk model, repaired zero-fill. *)
+
+(* The repaired zero-fill clears exactly the slots [lo, n) of a file: rows below lo keep slot record AND payload cell
+   (in particular the length word at data_off), slot lo holds only the 4-byte length prefix (index 0 = empty slot),
+   nothing above survives. Holds for the current file (endb = 32*next) and for a rotated one (endb = data_off). *)
+Theorem C17_zero_fill_repaired_exact : forall P endb lo f top r bottom,
+  f_rows f = top ++ r :: bottom -> N.of_nat (length bottom) = lo -> rows_ok f ->
+  entry_sz * f_n f <= endb -> endb <= data_off P ->
+  f_rows (zero_fill VRepaired P endb lo f) = garbage_row (endb - entry_sz * lo - 4) :: bottom
+  /\ rows_ok (zero_fill VRepaired P endb lo f).
+Proof. exact zero_fill_repaired_rows. Qed.
+Print Assumptions C17_zero_fill_repaired_exact.
+
+(* The append loop - rotation on the slot-count or size limit included, for every batch and every starting offset -
+   extends the log read back from the files by exactly the batch, and leaves hard state and snapshot alone. *)
+Theorem C17_append_loop_refines : forall P es off d,
+  rows_ok (d_cur d) -> all_live (d_cur d) -> d_next d = f_n (d_cur d) ->
+  Forall (fun e => e_index e <> 0) es ->
+  let d' := append_loop P es off d in
+  log_of d' = log_of d ++ es /\ d_meta d' = d_meta d
+  /\ rows_ok (d_cur d') /\ all_live (d_cur d') /\ d_next d' = f_n (d_cur d').
+Proof. exact append_loop_refines. Qed.
+Print Assumptions C17_append_loop_refines.
+
+(* A whole Save (AddEntries) with the repaired zero-fill, in its three shapes: pure append; conflict in the current
+   file; conflict in a rotated file (later files deleted, that file reused). The log read back from the files is the
+   kept prefix (the rows below the slot slotGe answered) followed by the batch - which is Append of the specification
+   (C17_spec_append) once slotGe's answer is the position of the first new index.
+   PARTIAL: what is not proved in general is (1) that slot_ge's search returns that position (consecutive-index
+   invariant + search correctness), (2) the read path (all_entries = limit_size of the slice), (3) reopen and prefix
+   deletion as steps of the refinement. These are covered by the exhaustive small-scope check below (all histories up
+   to depth 4 with 3 slots per file; depth 5 in the thorough tier) and by the correspondence runs on the real code. *)
+Theorem C17_save_refines_partial : forall P e0 r d,
+  wf_params P = true -> Forall (fun e => e_index e <> 0) (e0 :: r) ->
+  let es := e0 :: r in
+  let d' := add_entries VRepaired P es d in
+  ((slot_ge P d (e_index e0) = (InCur, Some (d_next d)) \/ snd (slot_ge P d (e_index e0)) = None) ->
+   rows_ok (d_cur d) -> all_live (d_cur d) -> d_next d = f_n (d_cur d) ->
+   log_of d' = log_of d ++ es)
+  /\
+  (forall lo top x bottom,
+   slot_ge P d (e_index e0) = (InCur, Some lo) -> lo < d_next d -> d_next d = f_n (d_cur d) -> rows_ok (d_cur d) ->
+   f_n (d_cur d) <= max_entries P ->
+   f_rows (d_cur d) = top ++ x :: bottom -> N.of_nat (length bottom) = lo -> forallb live_row bottom = true ->
+   log_of d' = concat (map file_entries (d_files d)) ++ map row_entry (rev bottom) ++ es)
+  /\
+  (forall k lo top x bottom,
+   slot_ge P d (e_index e0) = (InOld k, Some lo) ->
+   let f := nth k (d_files d) (d_cur d) in
+   rows_ok f -> f_n f <= max_entries P ->
+   f_rows f = top ++ x :: bottom -> N.of_nat (length bottom) = lo -> forallb live_row bottom = true ->
+   log_of d' = concat (map file_entries (firstn k (d_files d))) ++ map row_entry (rev bottom) ++ es).
+Proof. exact add_entries_repaired. Qed.
+Print Assumptions C17_save_refines_partial.
+
+(* the layout hypotheses hold for the constants the Go code is compiled with (Gen_Consts is regenerated every run) *)
+Example C17_real_params_wf : wf_params real_params = true.
+Proof. vm_compute. reflexivity. Qed.
+
+(* Exhaustive small scope (finite check by vm_compute, not a general theorem): every history of up to 4 operations
+   over the alphabet of Scope.ops_for (saves appending / conflicting at the first, last and next index with batches
+   of 1, 2 and 4 entries, snapshots, prefix deletions, reopen) with 3 slots and 42 data bytes per file: the repaired
+   disk model and the specification give the same answer at every step, a full read of the disk equals the
+   specification's log, Term and Entries agree at the boundaries. Today's zero-fill fails the same check. *)
+Example C17_refines_small_scope : explore VRepaired tiny_params 4 (empty_disk tiny_params) empty_alog = true.
+Proof. vm_compute. reflexivity. Qed.
+Example C17_small_scope_size : count_hist VRepaired tiny_params 4 (empty_disk tiny_params) empty_alog = 20197.
+Proof. vm_compute. reflexivity. Qed.
+Example C17_small_scope_rejects_current : explore VCurrent tiny_params 4 (empty_disk tiny_params) empty_alog = false.
+Proof. vm_compute. reflexivity. Qed.
